@@ -390,6 +390,7 @@ func runC17(r *Run) {
 	}
 	ff := r.E.Facts(ap, core.Ctx{})
 	r.checkComposerPure(P)
+	r.checkCopyFirst(P)
 	if dc := r.fn(P, pkgComposer, "deepCopy"); dc != nil {
 		r.requireSucc(P+".pure.copy", "the working copy must be a fresh value decoded from the serialized input", dc, core.Ctx{}, "",
 			"ok(json.Marshal($0))", "ok(json.Unmarshal(json.Marshal($0), _))")
